@@ -20,6 +20,10 @@ You can obtain one at http://mozilla.org/MPL/2.0/.
 #include "libfive/render/brep/indexes.hpp"
 #include "libfive/render/brep/per_thread_brep.hpp"
 
+#ifdef LIBFIVE_VERIF
+#include "libfive/verif.hpp"
+#endif
+
 namespace libfive {
 
 HybridMesher::HybridMesher(PerThreadBRep<3>& m, Tree t)
@@ -379,6 +383,18 @@ void HybridMesher::load(const std::array<const HybridTree<3>*, 4>& ts)
             if (!shared_okay) {
                 continue;
             }
+#ifdef LIBFIVE_VERIF
+            {   // dump the tet that is about to be marched:
+                // four global subspace-vertex indices, then the inside mask
+                uint64_t verif_tet[5];
+                for (unsigned j=0; j < 4; ++j) {
+                    verif_tet[j] = subvs.at(vs.at(tet.at(j))).index;
+                }
+                verif_tet[4] = mask;
+                LIBFIVE_VERIF_POINT(verif::SITE_TET, 0,
+                                    this_cell->leafLevel(), verif_tet);
+            }
+#endif
 
             // Iterate over up-to-two triangles
             for (const auto& tri : tet_table.at(mask))
@@ -393,6 +409,9 @@ void HybridMesher::load(const std::array<const HybridTree<3>*, 4>& ts)
                 // boundary either in a precalculated cache or with binary
                 // search.
                 Eigen::Matrix<uint32_t, 3, 1> tri_vert_indices;
+#ifdef LIBFIVE_VERIF
+                uint64_t verif_tri[9];
+#endif
                 for (unsigned t=0; t < tri.size(); ++t)
                 {
                     const auto& edge = tri.at(t);
@@ -405,6 +424,10 @@ void HybridMesher::load(const std::array<const HybridTree<3>*, 4>& ts)
 
                     // Then build a globally unique key for this edge
                     const auto k = Key(va.index, vb.index);
+#ifdef LIBFIVE_VERIF
+                    verif_tri[3*t] = va.index;
+                    verif_tri[3*t + 1] = vb.index;
+#endif
 
                     //  Everything in the leaf cache has been moved into
                     //  edge_search_cache, so we only need to look for the
@@ -445,6 +468,14 @@ void HybridMesher::load(const std::array<const HybridTree<3>*, 4>& ts)
                     }
                 }
 
+#ifdef LIBFIVE_VERIF
+                // dump the triangle: per side (edge.first index,
+                // edge.second index, surface vertex index)
+                for (unsigned t=0; t < 3; ++t) {
+                    verif_tri[3*t + 2] = tri_vert_indices[t];
+                }
+                LIBFIVE_VERIF_POINT(verif::SITE_TET, 1, 0, verif_tri);
+#endif
                 // Save the resulting triangle
                 m.branes.push_back(tri_vert_indices);
             }
